@@ -142,6 +142,59 @@ def dir_history_case(args):
         sc.close()
 
 
+def other_device_history_case(args):
+    """the declared output lies on another file system than the working directory (results -> scratch storage).  History: the
+    program is killed at the first moment the output can be seen at its final path with fewer bytes than it will have (if that
+    moment never comes the run just ends), temp dirs are removed, the workflow is run again.  The outcome -- exit status, size
+    of the output, what the consumer computed from it -- is that of an uninterrupted run in a fresh directory"""
+    seed, i = args
+    rng = random.Random(seed * 2750159 + i)
+    size = rng.choice([150, 250, 400]) * 1000 * 1000
+    sp = t3.Spec(maxtasks=2, bufsize=128)
+    big = sp.proc(t3.RawProc("big", "head -c %d /dev/zero > {o:o}" % size, ins=[], outs=[("o", "results/big.bin")]))
+    sp.proc(t3.RawProc("count", "wc -c < {i:a} | tr -d ' ' > {o:o}", ins=[("a", [(big, "o")])], outs=[("o", "count.txt")]))
+    def outcome(sc, r):
+        try:
+            cnt = open(os.path.join(sc.work, "count.txt")).read().strip()
+        except OSError:
+            cnt = None
+        return ("exit 0" if r["rc"] == 0 else "exit non-zero", r["final_size"], cnt)
+    others = []
+    try:
+        ref = None
+        sc = t3.Scratch()
+        try:
+            o = t3.other_device_dir()
+            if o is None:
+                return {"replay": {}, "spec": "", "bufsize": 0, "problems": [], "conv": [], "d2": None, "point": None, "second": None, "rc": 0, "stderr": "", "yield": None,
+                        "ntasks": 0, "wall": 0, "refused": False, "leftovers": 0}
+            others.append(o)
+            os.symlink(o, os.path.join(sc.work, "results"))
+            ref = outcome(sc, t3.watched_run(sc, sp, "results/big.bin", size))
+        finally:
+            sc.close()
+        sc = t3.Scratch()
+        try:
+            o = t3.other_device_dir()
+            others.append(o)
+            os.symlink(o, os.path.join(sc.work, "results"))
+            r1 = t3.watched_run(sc, sp, "results/big.bin", size, kill_on_partial=True)
+            cleanup(sc.work)
+            r2 = t3.watched_run(sc, sp, "results/big.bin", size)
+            got = outcome(sc, r2)
+        finally:
+            sc.close()
+        problems = []
+        if got != ref:
+            problems.append(("restart-differs", "output on another file system; %s, temp dirs removed, run again: (exit, size of results/big.bin, count.txt) = %s, the uninterrupted run gives %s" % (
+                "killed when results/big.bin was visible with %s of %d bytes" % (r1["smallest_seen"], size) if r1["killed"] else "first run not interrupted (the output was never visible incomplete)", got, ref)))
+        return {"replay": {}, "spec": sp.text(), "bufsize": sp.bufsize, "problems": problems, "conv": [], "d2": None, "point": ("observer", 1) if r1["killed"] else None, "second": None,
+                "rc": r2["rc"], "stderr": r2["out"][-300:], "yield": None, "ntasks": 2, "wall": 1.0, "refused": False, "leftovers": 0}
+    finally:
+        for o in others:
+            shutil.rmtree(o, ignore_errors=True)
+
+
 def dir_workflow(rng):
     sp = t3.Spec(maxtasks=rng.randint(1, 2), bufsize=128)
     L = rng.randint(1, 2)
@@ -185,6 +238,7 @@ def run(rep, tier, seed):
         opts = [p for p in dpts if not p[0].startswith("fin.")]
         dcases += [(dsp, t3.data_files(dref["fs"]), pt, seed) for pt in fpts + rng.sample(opts, min(len(opts), 10))]
     results += t3.run_many(dir_history_case, dcases)
+    results += t3.run_many(other_device_history_case, [(seed, i) for i in range(2 if tier == "quick" else 8)], workers=2)
     kf = vlib.known_findings("C03")
     d2_listed = any(f["kind"] == "crash-between-renames-of-one-task" for f in kf)
     nd2 = 0
